@@ -233,7 +233,10 @@ func (proc *Processor) ExecuteStatement(ctx context.Context, stmt parser.Stateme
 					} else if !proc.Tx.Flags.ExportOptions.StripEndingLineBreak &&
 						!(proc.Tx.Session.OutFile() != nil && exportOptions.Format == option.FIXED && exportOptions.SingleLine) &&
 						exportOptions.Format != option.JSONL {
-						_, err = writer.Write([]byte(proc.Tx.Flags.ExportOptions.LineBreak.Value()))
+						var lineBreak []byte
+						if lineBreak, err = encodedLineBreak(proc.Tx.Flags.ExportOptions.LineBreak, exportOptions.Format, exportOptions.Encoding); err == nil {
+							_, err = writer.Write(lineBreak)
+						}
 					}
 				}
 
